@@ -44,6 +44,7 @@ import asyncio
 import contextlib
 import math
 import os
+import random
 import subprocess
 import sys
 import warnings
@@ -249,10 +250,83 @@ def build_pool():
     add('PyG22', PyGivens((2, 2), 1, 2), 'python', 'exact')
     add('Px(U3)', PyProxy(G.U3Gate()), 'python', 'exact')
     add('Px(RZZ)', PyProxy(G.RZZGate()), 'python', 'exact')
+    add_variants(add, random.Random(POOL_SEED * 104729 + 19))
     return P
 
 
+def add_variants(add, rng):
+    """Round 4 (seeded C19-4 was missed: the pool held ONE FrozenParameterGate,
+    built from an ascending dict).  Composed gates whose meaning depends on how
+    their constructor arguments are written: frozen dicts in ascending /
+    descending / arbitrary insertion order over inner gates with 2-8
+    parameters, nestings of composed gates, control levels, level maps.  They
+    take the non-native evaluation path; the oracles are the ones of every
+    cost case (numpy definition from the gates' own unitaries, finite
+    differences of get_cost / get_residuals, PyProxy re-evaluation)."""
+    import bqskit.ir.gates as G
+    inners = [('U3', G.U3Gate()), ('CU', G.CUGate()), ('FSIM', G.FSIMGate()),
+              ('PXZ', G.PhasedXZGate()), ('U8', G.U8Gate()),
+              ('PAULI1', G.PauliGate(1)), ('U2', G.U2Gate()),
+              ('C(U3)', G.ControlledGate(G.U3Gate()))]
+
+    def frz(name, g, order):
+        n = g.num_params
+        k = rng.randint(2, n - 1) if n >= 3 else 1
+        idxs = rng.sample(range(n), k)
+        if order == 'asc':
+            idxs.sort()
+        elif order == 'desc':
+            idxs.sort(reverse=True)
+        elif idxs == sorted(idxs) and k > 1:
+            idxs[0], idxs[-1] = idxs[-1], idxs[0]
+        fr = {i: round(rng.uniform(-3, 3), 3) for i in idxs}
+        key = f'Frz[{order}]({name};' + ','.join(
+            f'{i}={v}' for i, v in fr.items()) + ')'
+        return key, G.FrozenParameterGate(g, fr)
+
+    frozen = []
+    for name, g in inners:
+        for order in ('asc', 'desc', 'mixed'):
+            key, fg = frz(name, g, order)
+            add(key, fg, 'composed', 'variant')
+            frozen.append((key, fg))
+    # nestings: the outer gate's parameters are the inner frozen gate's
+    for key, fg in rng.sample(frozen, 6):
+        kind = rng.choice(['Dg', 'C', 'Pow', 'Tag'])
+        if kind == 'Dg':
+            add(f'Dg({key})', G.DaggerGate(fg), 'composed', 'variant')
+        elif kind == 'C' and fg.num_qudits == 1:
+            add(f'C({key})', G.ControlledGate(fg), 'composed', 'variant')
+        elif kind == 'Pow':
+            pw = rng.choice([2, -1, 3])
+            add(f'Pow({key},{pw})', G.PowerGate(fg, pw), 'composed',
+                'variant')
+        else:
+            add(f'Tag({key})', G.TaggedGate(fg, 'v'), 'composed', 'variant')
+    add('C(RY)@3[1]', G.ControlledGate(G.RYGate(), 1, 3, [1]), 'composed',
+        'variant')
+    add('C(RZ)@3[0,2]', G.ControlledGate(G.RZGate(), 1, 3, [[0, 2]]),
+        'composed', 'variant')
+    add('CC(U3)', G.ControlledGate(G.U3Gate(), 2), 'composed', 'variant')
+    add('C(U3)@23', G.ControlledGate(G.U3Gate(), 2, [2, 3], [[1], [0, 2]]),
+        'composed', 'variant')
+    add('Emb(RZ;3;1,2)', G.EmbeddedGate(G.RZGate(), 3, [1, 2]), 'composed',
+        'variant')
+    add('Emb(U3;3;2,0)', G.EmbeddedGate(G.U3Gate(), 3, [2, 0]), 'composed',
+        'variant')
+    add('Dg(Pow(U3,2))', G.DaggerGate(G.PowerGate(G.U3Gate(), 2)), 'composed',
+        'variant')
+
+
+POOL_SEED = 0
 _POOL = None
+
+
+def set_pool_seed(seed: int):
+    global POOL_SEED, _POOL
+    if seed != POOL_SEED or _POOL is None:
+        POOL_SEED = seed
+        _POOL = None
 
 
 def pool():
@@ -1158,7 +1232,8 @@ def section_corpus(R: Run):
     for k in sorted(P):
         g, tags = P[k]
         if g.num_params == 0 or 'vu' in tags or not (
-                'native' in tags or k in ('PyG23', 'CP', 'C(RZ)')):
+                'native' in tags or 'variant' in tags
+                or k in ('PyG23', 'CP', 'C(RZ)')):
             continue
         nq = g.num_qudits
         locs = [tuple(range(nq))]
@@ -2026,6 +2101,7 @@ def run(ck: Check):
     proved = ck.lean_obligations()
     phases['translate+lean'] = round(time.time() - t0, 1)
     os.environ.setdefault('RUST_BACKTRACE', '0')
+    set_pool_seed(ck.seed)
     R = Run(ck)
     only_sig = None
     if ck.replay_path:
@@ -2040,6 +2116,7 @@ def run(ck: Check):
         ck.tier = body.get('tier', ck.tier)
         thorough = ck.tier == 'thorough'
         ck.rng = random.Random(ck.seed * 1000003 + int(ck.pid[1:]))
+        set_pool_seed(ck.seed)
         R = Run(ck)
         if rp.get('section') in ('cost', 'exact') and 'ops' in rp:
             print(f'replay: {rp["section"]} case {rp["ops"]} params '
